@@ -209,6 +209,21 @@ def _c10_body(case, rng, sd, nm, n, tabs, vars_, ts, msgs):
             if rc and sorted(names2) != sorted(free):
                 msgs.append(f"percolate_network({sp}, remove_constants=True) keeps variables {names2}, free variables are {free}")
                 continue
+            if not rc:
+                # constants kept: the encoding is still over exactly the variables left free -- every variable fixed by the
+                # percolated trap space must be a CONSTANT of the new network with that value (a fixed free input that stays a
+                # free input makes the other input values reappear: seeded change w8_C18)
+                bad = None
+                for v in perc:
+                    if v not in names2:
+                        bad = f"dropped fixed variable {v}"; break
+                    if new_bn.get_update_function(v) is None:
+                        bad = f"leaves the fixed input {v} a free input"; break
+                    fb = g2.mk_update_function(v)
+                    if not ((fb.is_true() and perc[v] == 1) or (fb.is_false() and perc[v] == 0)):
+                        bad = f"update function of the fixed variable {v} is not the constant {perc[v]}"; break
+                if bad:
+                    msgs.append(f"percolate_network({sp}, remove_constants=False) {bad}"); continue
             for v in free:
                 if v not in names2:
                     msgs.append(f"percolate_network({sp}) dropped free variable {v}"); break
